@@ -1,7 +1,7 @@
 (* C09 -- The feasibility heuristic returns a genuinely feasible solution or fails loudly.
    Property theorems only; models in theories/Heur.v, proofs in theories/Heur_facts.v. *)
 From Coq Require Import ZArith List Bool Lia.
-From VQ Require Import Base LinAlg Vrptw Vrptw_facts Path Path_facts Penalty Penalty_facts Heur Heur_facts.
+From VQ Require Import Base LinAlg Vrptw Vrptw_facts Path Path_facts Penalty Penalty_facts Seq Seq_facts Heur Heur_facts Heur_seq_facts.
 Import ListNotations.
 Open Scope Z_scope.
 
@@ -21,8 +21,8 @@ Theorem C09_post_path :
     let m := length (proutes st') in
     PInv st' /\
     exists A,
-      constraint_data st' = Ok ((n - 1, m)%nat, A, repeat 1 (n - 1)%nat, zero_matrix m, 0) /\
-      num_variables st' = m /\ length x = m /\ Forall (fun v => v = 0 \/ v = 1) x /\
+      Path.constraint_data st' = Ok ((n - 1, m)%nat, A, repeat 1 (n - 1)%nat, zero_matrix m, 0) /\
+      Path.num_variables st' = m /\ length x = m /\ Forall (fun v => v = 0 \/ v = 1) x /\
       Zbinary m (Zvec_of x) /\
       Zfeasible (n - 1) m (Zmat_of A) (Zvec_of (repeat 1 (n - 1)%nat)) (Zmat_of (zero_matrix m)) (Zvec_of x).
 Proof.
@@ -40,12 +40,12 @@ Theorem C09_post_path_qubo :
     let n := length (nodes (pg st')) in
     let m := length (proutes st') in
     exists A b R,
-      constraint_data st' = Ok ((n - 1, m)%nat, A, b, R, 0) /\
+      Path.constraint_data st' = Ok ((n - 1, m)%nat, A, b, R, 0) /\
       forall rho (feas : bool),
         Zqubo_value m (Zget_qubo (n - 1) feas rho (Zmat_of A, Zvec_of b, Zmat_of R)
-                                 (Zvec_of (fst (objective_data st')), Zmat_of (snd (objective_data st')))) (Zvec_of x)
+                                 (Zvec_of (fst (Path.objective_data st')), Zmat_of (snd (Path.objective_data st')))) (Zvec_of x)
         = if feas then 0
-          else Zobjective m (Zvec_of (fst (objective_data st'))) (Zmat_of (snd (objective_data st'))) (Zvec_of x).
+          else Zobjective m (Zvec_of (fst (Path.objective_data st'))) (Zmat_of (snd (Path.objective_data st'))) (Zvec_of x).
 Proof.
   intros choose dum_name st high st' x HP H n m.
   destruct (mf_path_feasible choose dum_name st high st' x HP H) as (A & Ecd & _ & _ & _ & Hb & Hf).
@@ -62,8 +62,8 @@ Theorem C09_post_path_repeated :
     let n := length (nodes (pg st')) in
     let m := length (proutes st') in
     exists A,
-      constraint_data st' = Ok ((n - 1, m)%nat, A, repeat 1 (n - 1)%nat, zero_matrix m, 0) /\
-      num_variables st' = m /\ length x = m /\ Forall (fun v => v = 0 \/ v = 1) x /\
+      Path.constraint_data st' = Ok ((n - 1, m)%nat, A, repeat 1 (n - 1)%nat, zero_matrix m, 0) /\
+      Path.num_variables st' = m /\ length x = m /\ Forall (fun v => v = 0 \/ v = 1) x /\
       Zbinary m (Zvec_of x) /\
       Zfeasible (n - 1) m (Zmat_of A) (Zvec_of (repeat 1 (n - 1)%nat)) (Zmat_of (zero_matrix m)) (Zvec_of x).
 Proof.
@@ -145,7 +145,7 @@ Example C09_example_path :
     names (pg st') = [0; 1; 2; 116]%nat /\
     map ndemand (nodes (pg st')) = [0; -4; 3; 2] /\
     proutes st' = [[0; 2; 0]; [0; 3; 1; 0]]%nat /\ pcosts st' = [5; 22] /\
-    constraint_data st' = Ok ((3, 2)%nat, [[0; 1]; [1; 0]; [0; 1]], [1; 1; 1], [[0; 0]; [0; 0]], 0).
+    Path.constraint_data st' = Ok ((3, 2)%nat, [[0; 1]; [1; 0]; [0; 1]], [1; 1; 1], [[0; 0]; [0; 0]], 0).
 Proof. eexists. vm_compute. repeat split; reflexivity. Qed.
 
 (* the example satisfies the hypotheses of the totality theorem; so does the same graph with an empty
@@ -177,3 +177,129 @@ Example C09_example_path_empty_pool :
     names (pg st') = [0; 1; 2; 116; 132]%nat /\ map ndemand (nodes (pg st')) = [0; -4; 3; 2; 0] /\
     proutes st' = [[0; 3; 1; 0]; [0; 4; 2; 0]]%nat /\ pcosts st' = [14; 14].
 Proof. eexists. vm_compute. repeat split; reflexivity. Qed.
+
+
+(* ====================== sequence-based formulation ====================== *)
+(* Hypotheses of the postcondition: Inv (ig I) -- the graph is one reached by add_node / add_arc / set_depot
+   (C15) --, seq_ok I -- its arc keys are distinct, the depot self-arc exists (the class's set_depot was
+   called; C07_hypotheses_reachable) and there is a depot --, and at least three positions (as in C07_iff).
+
+   (3) POSTCONDITION.  If make_feasible returns normally with the instance I' (arcs, vehicles and vehicle
+   costs possibly extended) and the vector x, then there are routes, one per vehicle of I', each a list of
+   customers along arcs of I' from the depot back to the depot within L positions, covering every customer
+   exactly once, such that the walks obtained by padding them with depot stays form a walk assignment of I',
+   x has one entry per variable of I' and is the indicator vector of that walk assignment.  Hence (C07_iff,
+   right to left) x is binary and satisfies A x = b and x'Rx = 0 for the data I' reports.
+   [Before commit dd659d9 the faithful model refuted this statement: depot window (0,0), one customer with
+   window (1,1), no arc, V = 0, L = 4 returned Ok with x'Rx = 1; the refused exit arc now raises ValueError.] *)
+Theorem C09_post_seq :
+  forall (strict : bool) I high I' x,
+    Inv (ig I) -> seq_ok I -> (3 <= iL I)%nat ->
+    mf_seq strict I high = Ok (I', x) ->
+    let n := Seq.num_variables I' in
+    (exists routes,
+       length routes = iV I' /\ Forall (Seq_facts.valid_route I') routes /\
+       (forall c, (1 <= c)%nat -> (c < iN I')%nat -> count_occ Nat.eq_dec (concat routes) c = 1%nat) /\
+       walk_assignment I' (pad_walks routes) /\
+       forall k, (k < n)%nat -> nth k x 0 = indicator_free I' (pad_walks routes) k) /\
+    length x = n /\ Forall (fun v => v = 0 \/ v = 1) x /\ zbinary n (Zvec_of x) /\
+    exists E, R_entries I' = Ok E /\
+      (forall r, (r < num_rows I')%nat -> zmv n (Amat I') (Zvec_of x) r = bvec I' r) /\
+      zqf n (Rmat E) (Zvec_of x) = 0.
+Proof.
+  intros strict I high I' x HI Hok HL H n. split.
+  - destruct (mf_seq_walk strict I high I' x H HI Hok HL) as (routes & A & B & C & D & _ & F & _).
+    exists routes. auto.
+  - exact (mf_seq_feasible strict I high I' x H HI Hok HL).
+Qed.
+Print Assumptions C09_post_seq.
+
+(* (3') ... hence the QUBO of the reported data has value 0 on x in feasibility mode and the objective
+   value in optimisation mode, for every penalty weight. *)
+Theorem C09_post_seq_qubo :
+  forall (strict : bool) I high I' x,
+    Inv (ig I) -> seq_ok I -> (3 <= iL I)%nat ->
+    mf_seq strict I high = Ok (I', x) ->
+    let n := Seq.num_variables I' in
+    exists E, R_entries I' = Ok E /\
+      forall rho (feas : bool),
+        Zqubo_value n (Zget_qubo (num_rows I') feas rho (Amat I', bvec I', Rmat E) (cvec I', Qo I')) (Zvec_of x)
+        = if feas then 0 else Zobjective n (cvec I') (Qo I') (Zvec_of x).
+Proof.
+  intros strict I high I' x HI Hok HL H n.
+  destruct (mf_seq_feasible strict I high I' x H HI Hok HL) as (_ & _ & Hb & E & HE & HA & HR).
+  exists E. split; [exact HE|]. intros rho feas. apply feasible_qubo_value; [exact Hb|]. split; assumption.
+Qed.
+Print Assumptions C09_post_seq_qubo.
+
+(* (3'') the new instance satisfies the hypotheses again: the postcondition holds after every successful
+   call of a sequence of calls *)
+Theorem C09_post_seq_repeated :
+  forall (strict : bool) highs I I' x,
+    Inv (ig I) -> seq_ok I -> (3 <= iL I)%nat ->
+    In (Ok (I', x)) (mf_seq_iter strict I highs) ->
+    let n := Seq.num_variables I' in
+    length x = n /\ zbinary n (Zvec_of x) /\
+    exists E, R_entries I' = Ok E /\
+      (forall r, (r < num_rows I')%nat -> zmv n (Amat I') (Zvec_of x) r = bvec I' r) /\
+      zqf n (Rmat E) (Zvec_of x) = 0.
+Proof.
+  intros strict. induction highs as [|h hs IH]; simpl; intros I I' x HI Hok HL Hin; [contradiction|].
+  destruct (mf_seq strict I h) as [[J y]|e] eqn:E.
+  - destruct Hin as [Heq|Hin].
+    + inversion Heq; subst. destruct (mf_seq_feasible strict I h I' x E HI Hok HL) as (A & _ & B & C). auto.
+    + destruct (mf_seq_walk strict I h J y E HI Hok HL) as (_ & _ & _ & _ & _ & _ & _ & Hok' & HI' & HL' & _).
+      apply (IH J); auto. lia.
+  - destruct Hin as [Heq|[]]. discriminate.
+Qed.
+Print Assumptions C09_post_seq_repeated.
+
+(* (4) TOTALITY.  In addition: the depot window never closes and no customer's window closes before the
+   depot window opens (SeqHyp; a0 >= 0 is not needed).  Then make_feasible returns normally for every vehicle
+   count (also 0), every vehicle-cost list, both modes and every high cost, and all hypotheses hold again. *)
+Theorem C09_total_seq :
+  forall (strict : bool) I high,
+    Inv (ig I) -> seq_ok I -> (3 <= iL I)%nat -> SeqHyp (ig I) ->
+    exists I' x, mf_seq strict I high = Ok (I', x) /\
+                 Inv (ig I') /\ seq_ok I' /\ iL I' = iL I /\ SeqHyp (ig I').
+Proof. exact mf_seq_total. Qed.
+Print Assumptions C09_total_seq.
+
+Theorem C09_total_seq_repeated :
+  forall (strict : bool) highs I,
+    Inv (ig I) -> seq_ok I -> (3 <= iL I)%nat -> SeqHyp (ig I) ->
+    length (mf_seq_iter strict I highs) = length highs /\
+    Forall (fun r => exists I' x, r = Ok (I', x)) (mf_seq_iter strict I highs).
+Proof.
+  intros strict. induction highs as [|h hs IH]; simpl; intros I HI Hok HL HH; [split; [reflexivity|constructor]|].
+  destruct (mf_seq_total strict I h HI Hok HL HH) as (I' & x & E & HI' & Hok' & HL' & HH'). rewrite E.
+  destruct (IH I' HI' Hok' ltac:(lia) HH') as [A B]. simpl. split; [congruence|]. constructor; eauto.
+Qed.
+Print Assumptions C09_total_seq_repeated.
+
+(* ---------------- example (non-vacuity) ---------------- *)
+(* strict class; depot 0 (0,inf), customers 1 (0,5), 2 (1,6), 3 (2,4); arcs 0->1, 1->2; one vehicle, four
+   positions.  The vehicle fills both free positions (0-1-2-0; the arc 2->0 is added), customer 3 gets a
+   dummy vehicle with surcharge 7 and the arcs 0->3, 3->0. *)
+Definition ex_seq_ops : list gop :=
+  [OpAddNode 0 0 0 PInf; OpAddNode 1 1 0 (Fin 5); OpAddNode 2 1 1 (Fin 6); OpAddNode 3 1 2 (Fin 4); OpSetDepot 0;
+   OpAddArc 0 1 1 2; OpAddArc 1 2 1 3].
+
+Example C09_example_seq :
+  exists J J',
+    sinst_of true ex_seq_ops 1 4 = Ok J /\
+    Inv (ig J) /\ seq_ok J /\ (3 <= iL J)%nat /\ SeqHyp (ig J) /\
+    mf_seq true J 7 = Ok (J', [0; 0; 1; 0; 0; 1; 0; 1; 1; 0; 0; 0]) /\
+    iV J' = 2%nat /\ ivc J' = [0; 7] /\
+    map fst (arcs (ig J')) = [(0, 0); (0, 1); (1, 2); (2, 0); (0, 3); (3, 0)]%nat /\
+    map (fun kv => acost (snd kv)) (arcs (ig J')) = [0; 2; 3; 0; 7; 7].
+Proof.
+  exists (mkInst (run (Seq true) ex_seq_ops empty_graph) 1 4 [0]). eexists. split; [vm_compute; reflexivity|].
+  split; [apply run_inv; apply Inv_empty|].
+  split; [apply depot_set_seq_ok; split; [apply run_inv; apply Inv_empty | vm_compute; auto]|].
+  split; [vm_compute; lia|].
+  split.
+  - eexists. eexists. split; [vm_compute; reflexivity|]. split; [reflexivity|].
+    intros nd [<-|[<-|[<-|[]]]]; vm_compute; discriminate.
+  - vm_compute. repeat split; reflexivity.
+Qed.
